@@ -431,6 +431,48 @@ Definition via_arrow (env : envt) (l : ilist) (wi wn : bool) : ilist * res ilist
        if negb (is_some (t_ids t)) && negb (is_some (t_nums t)) then Err EType
        else construct env None (table_args t (vocab l) KArrow)).
 
+(* to_arrow(columns=...): the caller names the columns, in the caller's order.  A column is filled by
+   what its NAME says -- item_id: ids(); item_num: numbers() (missing="error"); rank: ranks() or nulls
+   for an unordered list; any other name: the field of that name or nulls -- and the readers run in
+   column order (so the caches fill, and the first error is raised, in that order).  The column
+   types only type the null columns; from_arrow drops entirely-null columns of a non-empty table. *)
+Inductive col := CId | CNum | CName (f : fname).        (* CName F_RANK is the rank column *)
+Definition t_none : table := {| t_ids := None; t_nums := None; t_rank := None; t_fields := [] |}.
+Definition t_put_ids (t : table) (i : list Z) : table :=
+  {| t_ids := Some i; t_nums := t_nums t; t_rank := t_rank t; t_fields := t_fields t |}.
+Definition t_put_nums (t : table) (n : list Z) : table :=
+  {| t_ids := t_ids t; t_nums := Some n; t_rank := t_rank t; t_fields := t_fields t |}.
+Definition t_put_rank (t : table) (r : option (list Z)) : table :=
+  {| t_ids := t_ids t; t_nums := t_nums t; t_rank := r; t_fields := t_fields t |}.
+Definition t_put_field (t : table) (f : fname) (vs : list val) : table :=
+  {| t_ids := t_ids t; t_nums := t_nums t; t_rank := t_rank t; t_fields := dict_set f vs (t_fields t) |}.
+
+Fixpoint arrow_cols (env : envt) (l : ilist) (cols : list col) (t : table) : ilist * res table :=
+  match cols with
+  | [] => (l, Ok t)
+  | CId :: r => let '(l', ri) := force_ids env l in
+                match ri with Ok i => arrow_cols env l' r (t_put_ids t i) | Err e => (l', Err e) end
+  | CNum :: r => let '(l', rn) := force_nums env l MError in
+                 match rn with Ok n => arrow_cols env l' r (t_put_nums t n) | Err e => (l', Err e) end
+  | CName f :: r =>
+      if Nat.eqb f F_RANK then let l' := force_ranks l in arrow_cols env l' r (t_put_rank t (get_ranks l'))
+      else arrow_cols env l r (match get_field l f with Some vs => t_put_field t f vs | None => t end)
+  end.
+(* an empty list: one empty array per requested column, no reader is called *)
+Fixpoint empty_cols (cols : list col) (t : table) : table :=
+  match cols with
+  | [] => t
+  | CId :: r => empty_cols r (t_put_ids t [])
+  | CNum :: r => empty_cols r (t_put_nums t [])
+  | CName f :: r => empty_cols r (if Nat.eqb f F_RANK then t_put_rank t (Some []) else t_put_field t f [])
+  end.
+(* ItemList.from_arrow(l.to_arrow(columns=cols), vocabulary=l.vocabulary if kv else None) *)
+Definition via_arrow_cols (env : envt) (l : ilist) (cols : list col) (kv : bool) : ilist * res ilist :=
+  let '(l', rt) := if (len l =? 0)%nat then (l, Ok (empty_cols cols t_none)) else arrow_cols env l cols t_none in
+  (l', t <- rt ;;
+       if negb (is_some (t_ids t)) && negb (is_some (t_nums t)) then Err EType
+       else construct env None (table_args t (if kv then vocab l else None) KArrow)).
+
 (* ---------------------------------------------------------------- operation sequences *)
 Inductive op :=
 | ONew (a : cargs)
@@ -442,7 +484,8 @@ Inductive op :=
 | OAlt (k : nat) (v : nat) (m : missing)
 | OClone (k : nat)
 | ODf (k : nat) (wi wn : bool)
-| OArrow (k : nat) (wi wn : bool).
+| OArrow (k : nat) (wi wn : bool)
+| OArrowC (k : nat) (cols : list col) (kv : bool).
 
 Fixpoint update {A} (k : nat) (x : A) (l : list A) : list A :=
   match l, k with
@@ -480,6 +523,8 @@ Definition step (env : envt) (ls : list ilist) (o : op) : list ilist * outcome :
                    | Some l => let '(l', r) := via_df env l wi wn in push (update (idx k) l' ls) r end
   | OArrow k wi wn => match pickl k with None => (ls, Some ENoList)
                       | Some l => let '(l', r) := via_arrow env l wi wn in push (update (idx k) l' ls) r end
+  | OArrowC k cols kv => match pickl k with None => (ls, Some ENoList)
+                         | Some l => let '(l', r) := via_arrow_cols env l cols kv in push (update (idx k) l' ls) r end
   end.
 
 Fixpoint run (env : envt) (ls : list ilist) (ops : list op) : list ilist :=
@@ -530,7 +575,7 @@ Definition touched (ls ls' : list ilist) (o : op) : option ilist :=
   if (length ls <? length ls')%nat then last (map Some ls') None else
   match o with
   | ONew _ => None
-  | OCopy k _ | OSub k _ | OIds k | ONums k _ | ORanks k | OAlt k _ _ | OClone k | ODf k _ _ | OArrow k _ _ =>
+  | OCopy k _ | OSub k _ | OIds k | ONums k _ | ORanks k | OAlt k _ _ | OClone k | ODf k _ _ | OArrow k _ _ | OArrowC k _ _ =>
       nth_error ls' (idx k)
   end.
 Fixpoint trace (env : envt) (ls : list ilist) (ops : list op) : list (outcome * option lobs) * list ilist :=
